@@ -222,6 +222,35 @@ func cmdC03(args []string) error {
 			}
 			desc += ",sprinkled"
 		}
+		if k%3 == 1 {
+			// low-entropy layout: zero padding and repeated tiles that move around. A resumed writer that compares
+			// against the wrong part of the old file finds long equal runs here instead of noise.
+			tile := randBytes(rng, 12*1024)
+			rep := func(n int) []byte {
+				var b []byte
+				for len(b) < n {
+					b = append(b, tile...)
+				}
+				return b[:n]
+			}
+			content := randBytes(rng, 512*1024+rng.Intn(BS))
+			pad := make([]byte, 768*1024+rng.Intn(BS))
+			var o, nn []byte
+			switch rng.Intn(3) {
+			case 0: // padding first, then content  ->  new data, part of the content, the padding, new data
+				o = append(append([]byte{}, pad...), content...)
+				nn = append(append(append(append([]byte{}, randBytes(rng, 200*1024)...), content[:300*1024]...), pad...), randBytes(rng, 150*1024)...)
+			case 1: // repeated tiles, new data inserted at the front and in the middle
+				o = rep(1400 * 1024)
+				nn = append(append(append(append([]byte{}, randBytes(rng, 96*1024+rng.Intn(5000))...), rep(600*1024)...), randBytes(rng, 70*1024)...), rep(500*1024)...)
+			default: // zeros with islands of content that shift by a block multiple
+				o = append(append(append([]byte{}, pad...), content[:128*1024]...), pad...)
+				nn = append(append(append(append([]byte{}, content[:64*1024]...), pad[:256*1024]...), content[:128*1024]...), pad...)
+			}
+			old.Files["padded/layout.bin"] = o
+			new.Files["padded/layout.bin"] = nn
+			desc += ",padded-layout"
+		}
 		root, oldDir, newDir, err := materialisePair(old, new)
 		if err != nil {
 			return err
